@@ -28,6 +28,11 @@ import CtyModel.Lemmas.d14Regex
 import CtyModel.Lemmas.d14Json
 import CtyModel.Lemmas.d14Glue
 import CtyModel.Lemmas.d14Dispatch
+import CtyModel.Lemmas.d14bRef
+import CtyModel.Lemmas.d14bJoin
+import CtyModel.Lemmas.d14bDuration
+import CtyModel.Lemmas.d14bTimestamp
+import CtyModel.Lemmas.d14bRegexAll
 import CtyModel.Props.C02
 namespace CtyModel
 namespace C14
@@ -1107,6 +1112,267 @@ example : flLen [sv "x", intVal 3] none = .ok none := by decide
 -- indent: the side conditions are satisfiable, and 2^40 spaces on a string without a line break are fine
 example : countNewlines "a\nb\n".toList = 2 := by decide
 example : indentChars 2 "a\nb".toList = "a\n  b".toList := by decide
+
+/-! ## d14b — the strings package behind split / trim, and the error domain of log / pow
+
+`D14b.goSplit`, `goTrimPrefix`, `goTrimSuffix`, `goTrimSpace`, `goTrim` transliterate
+strings.Split, TrimPrefix, TrimSuffix, TrimSpace, Trim on code points; `D14b.refLib L`
+answers the five library calls with them, and the op `std.glue.ref` diffs the real
+`SplitFunc`, `TrimPrefixFunc`, … against `splitImpl (refLib L)`, … with only NFC recorded.
+`D14b.logNaN` / `powNaN` say from the arguments alone when package math answers NaN;
+`std.dom` diffs the ok/err class of the real `LogFunc` / `PowFunc` against them. -/
+
+open D14b in
+/-- `split(sep, str)` is the list of the NFC forms of the pieces of `strings.Split(str, sep)`
+(note the argument order), with the strings package transliterated, not an oracle. -/
+theorem split_reference (L : Lib) (sep str : String) :
+    splitImpl (refLib L) [sv sep, sv str] =
+      .ok ⟨.list .string, .seq (((goSplit str.toList sep.toList).map String.ofList).map fun s => .s (L.nfc s))⟩ :=
+  splitImpl_ref L sep str
+
+open D14b in
+/-- `split` agrees with Go: `strings.Join(strings.Split(s, sep), sep) == s` — the pieces, in
+order, with the separator between them, are the string; for EVERY separator (the empty one too). -/
+theorem split_join_inverse (s sep : List Char) : goJoin sep (goSplit s sep) = s := goJoin_goSplit s sep
+
+open D14b in
+/-- … and the pieces are cut at the FIRST occurrence each time: the first piece is what
+precedes the first occurrence of a non-empty separator (`strings.Index`), the others are
+the split of what follows it; without an occurrence the string comes back whole. Together
+with `split_join_inverse` this determines `strings.Split` for a non-empty separator. -/
+theorem split_cuts_at_first_occurrence (s sep : List Char) (hsep : sep ≠ []) :
+    (∀ i, goIndex sep s = some i → goSplit s sep = s.take i :: goSplit (s.drop (i + sep.length)) sep) ∧
+    (goIndex sep s = none → goSplit s sep = [s]) :=
+  ⟨fun _ h => goSplit_step hsep h, goSplit_absent hsep⟩
+
+open D14b in
+/-- `strings.Index` reports a position where the separator really stands. -/
+theorem index_is_an_occurrence (s sep : List Char) (i : Nat) (h : goIndex sep s = some i) :
+    s = s.take i ++ sep ++ s.drop (i + sep.length) := goIndex_some h
+
+open D14b in
+/-- The corner cases as Go defines them: an empty separator explodes the string into its
+code points (so `split("", "")` is the empty list), and an empty string with a non-empty
+separator gives the list of one empty string. -/
+theorem split_corner_cases (s sep : List Char) :
+    goSplit s [] = s.map ([·]) ∧ goSplit [] [] = [] ∧ (sep ≠ [] → goSplit [] sep = [[]]) :=
+  ⟨rfl, rfl, goSplit_nil⟩
+
+open D14b in
+/-- The loop bound of the model is immaterial (Go bounds the loop by `Count(s, sep)`; the
+model by any number above the length). -/
+theorem split_fuel_immaterial (sep : List Char) (hsep : sep ≠ []) (f g : Nat) (s : List Char)
+    (hf : s.length < f) (hg : s.length < g) : splitLoop sep f s = splitLoop sep g s :=
+  splitLoop_fuel hsep f g s hf hg
+
+open D14b in
+/-- `trimprefix`, `trimsuffix`, `trimspace`, `trim` are NFC of the transliterated
+strings.TrimPrefix / TrimSuffix / TrimSpace / Trim. -/
+theorem trim_family_reference (L : Lib) (a b : String) :
+    trimPrefixImpl (refLib L) [sv a, sv b] = .ok (stringVal L.nfc (String.ofList (goTrimPrefix a.toList b.toList))) ∧
+    trimSuffixImpl (refLib L) [sv a, sv b] = .ok (stringVal L.nfc (String.ofList (goTrimSuffix a.toList b.toList))) ∧
+    trimSpaceImpl (refLib L) [sv a] = .ok (stringVal L.nfc (String.ofList (goTrimSpace a.toList))) ∧
+    trimImpl (refLib L) [sv a, sv b] = .ok (stringVal L.nfc (String.ofList (goTrim a.toList b.toList))) :=
+  trimImpls_ref L a b
+
+open D14b in
+/-- `trimprefix` removes the prefix once when the string starts with it and changes nothing otherwise;
+`trimsuffix` likewise at the end. -/
+theorem trimprefix_trimsuffix_spec (p t s : List Char) :
+    goTrimPrefix (p ++ t) p = t ∧ (¬ p <+: s → goTrimPrefix s p = s) ∧
+    goTrimSuffix (t ++ p) p = t ∧ (¬ p <:+ s → goTrimSuffix s p = s) :=
+  ⟨goTrimPrefix_append p t, goTrimPrefix_not, goTrimSuffix_append t p, goTrimSuffix_not⟩
+
+open D14b in
+/-- `trimspace` returns the middle of "white space · m · white space" whenever `m` neither
+starts nor ends with white space (`unicode.IsSpace`), and what it removes on either side is
+white space only. -/
+theorem trimspace_spec (l m r s : List Char)
+    (hl : ∀ c ∈ l, goIsSpace c = true) (hr : ∀ c ∈ r, goIsSpace c = true)
+    (hm1 : ∀ c, m.head? = some c → goIsSpace c = false) (hm2 : ∀ c, m.getLast? = some c → goIsSpace c = false) :
+    goTrimSpace (l ++ m ++ r) = m ∧
+    ∃ l' r', s = l' ++ goTrimSpace s ++ r' ∧ (∀ c ∈ l', goIsSpace c = true) ∧ (∀ c ∈ r', goIsSpace c = true) :=
+  ⟨trimBoth_middle _ l m r hl hr hm1 hm2, trimBoth_decomp _ s⟩
+
+open D14b in
+/-- … and conversely the result of `trimspace` (of `trim`: read "in the cutset") neither starts nor
+ends with white space: with `trimspace_spec` it is THE middle part of the string. -/
+theorem trimspace_result_has_no_outer_space (s : List Char) :
+    (∀ c, (goTrimSpace s).head? = some c → goIsSpace c = false) ∧
+    (∀ c, (goTrimSpace s).getLast? = some c → goIsSpace c = false) := trimBoth_ends goIsSpace s
+
+open D14b in
+/-- `trim(str, cutset)` likewise with "occurs in the cutset" for white space (an empty
+string or cutset returns the string, as in Go). -/
+theorem trim_cutset_spec (cut l m r : List Char) (hne : (l ++ m ++ r) ≠ []) (hcut : cut ≠ [])
+    (hl : ∀ c ∈ l, cut.contains c = true) (hr : ∀ c ∈ r, cut.contains c = true)
+    (hm1 : ∀ c, m.head? = some c → cut.contains c = false) (hm2 : ∀ c, m.getLast? = some c → cut.contains c = false) :
+    goTrim (l ++ m ++ r) cut = m ∧ goTrim [] cut = [] ∧ goTrim m [] = m := by
+  refine ⟨?_, by simp [goTrim], by simp [goTrim]⟩
+  have h1 : (l ++ m ++ r).isEmpty = false := by cases h : (l ++ m ++ r) <;> simp_all
+  have h2 : cut.isEmpty = false := by cases cut <;> simp_all
+  simp only [goTrim, h1, h2, Bool.or_self, Bool.false_eq_true, if_false]
+  exact trimBoth_middle _ l m r hl hr hm1 hm2
+
+open D14b in
+/-- The exact error domain of `log` and `pow` on arguments inside float64: they fail iff the
+math package answers NaN, and — under the law about package math that `std.dom` probes on the
+real functions on every run — iff `logNaN` / `powNaN` holds of the float64 arguments: a negative
+number or base, `log(1, 1)`, both of number and base in `{0, +Inf}`; a finite negative base with a
+finite non-integer power. -/
+theorem log_pow_error_domain (llib plib : Num → Num → F64) (a b x y : Num)
+    (hl : NaNLaw llib logNaN) (hp : NaNLaw plib powNaN)
+    (ha : fromCtyFloat (numVal a) = .ok x) (hb : fromCtyFloat (numVal b) = .ok y) :
+    ((∃ m, logImpl llib [numVal a, numVal b] = .err m) ↔ logNaN x y = true) ∧
+    ((∃ m, powImpl plib [numVal a, numVal b] = .err m) ↔ powNaN x y = true) :=
+  ⟨(logImpl_err_iff llib a b x y ha hb).trans (hl x y), (powImpl_err_iff plib a b x y ha hb).trans (hp x y)⟩
+
+open D14b in
+/-- Consequences read off the rule: a whole-number power never fails, whatever the base; a
+non-negative base never fails; `log` of positive arguments fails only for `log(1, 1)`-like and
+`Inf/Inf` quotients. -/
+theorem pow_total_on_integer_power_or_nonnegative_base (x y : Num) (h : y.isInt = true ∨ x.sign ≠ -1) :
+    powNaN x y = false := by
+  rcases h with h | h
+  · simp [powNaN, h]
+  · simp [powNaN, h]
+
+open D14b in
+/-- No piece of a split contains the (non-empty) separator: with `split_join_inverse` this is
+the full reference statement of `strings.Split` — the only list of separator-free pieces that
+joins back to the string. -/
+theorem split_pieces_free_of_separator (s sep : List Char) (hsep : sep ≠ []) :
+    ∀ p ∈ goSplit s sep, goIndex sep p = none := goSplit_pieces hsep s
+
+open D14b in
+/-- `join` over any number of lists of known strings is `strings.Join` of all their members in
+order (`String.intercalate` IS the transliterated `strings.Join`), re-normalised; with no list at
+all it is the documented error (a null member: `join_null_member`). -/
+theorem join_reference (L : Lib) (sep : String) (xss : List (List String)) (h : xss ≠ []) :
+    joinImpl L (sv sep :: xss.map strList) = .ok (stringVal L.nfc (sep.intercalate xss.flatten)) ∧
+    (sep.intercalate xss.flatten).toList = goJoin sep.toList (xss.flatten.map String.toList) ∧
+    joinImpl L [sv sep] = .err "at least one list is required" :=
+  ⟨joinImpl_strLists L sep xss h, intercalate_toList sep _, joinImpl_no_list L sep⟩
+
+open D14b in
+/-- `join(sep, split(sep, s)) = s` through the two `Impl`s, for every separator, whenever the
+pieces are in normal form (NFC leaves substrings of a normalised string alone; the harness
+observes every result to be a fixed point of NFC). -/
+theorem join_inverts_split (L : Lib) (sep s : String) (r : Value)
+    (hp : ∀ p ∈ (goSplit s.toList sep.toList).map String.ofList, L.nfc p = p)
+    (hr : splitImpl (refLib L) [sv sep, sv s] = .ok r) :
+    joinImpl L [sv sep, r] = .ok (stringVal L.nfc s) := join_split_roundtrip L sep s r hp hr
+
+open D14b in
+/-- `chomp` removes exactly the trailing run of CR / LF characters: from "m · run" with `m` not
+ending in one, `m` is left. -/
+theorem chomp_spec (m r : List Char) (hr : ∀ c ∈ r, isNewline c = true)
+    (hm : ∀ c, m.getLast? = some c → isNewline c = false) : chompChars (m ++ r) = m :=
+  dropRight_middle isNewline m r hr hm
+
+open D14b in
+example : joinImpl ⟨id, fun _ => [], id, id, id, id, fun a _ => a, fun a _ => a, fun a _ => a, fun a _ _ => a, fun _ _ => [],
+    fun _ => none, fun _ a _ => a, fun _ _ => none, fun _ _ => [], fun _ => none, fun _ => false, fun a _ => a, fun _ => none,
+    fun _ _ => ⟨[], false⟩, fun v _ => v, fun v _ => v, fun _ => "", id⟩ [sv "-", strList ["a", "b"], strList [], strList ["c"]] =
+    .ok (sv "a-b-c") := by decide
+example : chompChars "ab\r\n\n\r".toList = "ab".toList ∧ chompChars "a\nb".toList = "a\nb".toList := by decide
+
+open D14b in
+/-- `timeadd` fails exactly when the timestamp is not RFC 3339 or `time.ParseDuration` refuses the
+duration — the verdict computed by the transliteration `durAccepts` (grammar, unit table, "0",
+every overflow test), not recorded from the library — and otherwise returns the library's sum. -/
+theorem timeadd_error_domain (L : Lib) (ts d : String) :
+    timeAddImpl (refLibDur L) [sv ts, sv d] =
+      (match L.parseTimestamp ts with
+       | none => .err "not a valid RFC3339 timestamp"
+       | some _ =>
+         if (durAccepts d.toList).getD false = false then .err "time.ParseDuration"
+         else .ok (stringVal L.nfc (L.timeAdd ts d))) := timeAddImpl_ref L ts d
+
+open D14b in
+/-- The duration grammar, part 1: a duration must start, after an optional sign, with a digit or a
+period; and the units are exactly ns, us, µs (U+00B5), μs (U+03BC), ms, s, m, h. -/
+theorem duration_start_and_units (c : Char) (cs u : List Char) (k : Nat) :
+    (c ≠ '-' → c ≠ '+' → c ≠ '.' → isDig c = false → durAccepts (c :: cs) = some false) ∧
+    (unitOf u = some k →
+      (u, k) ∈ [(['n', 's'], 1), (['u', 's'], 1000), (['µ', 's'], 1000), (['μ', 's'], 1000), (['m', 's'], 1000000),
+        (['s'], 1000000000), (['m'], 60000000000), (['h'], 3600000000000)]) :=
+  ⟨durAccepts_bad_start c cs, unitOf_some u k⟩
+
+open D14b in
+/-- The duration grammar, part 2 — the corner cases of the Go code, evaluated: the bare "0" with
+any sign is a duration, the empty string and a bare sign are not; a number needs a unit and digits
+(".s", "1", "1h1"); several terms and fractions are fine; the range is that of int64 nanoseconds,
+asymmetric (−2^63 is a duration, 2^63 is not), for one term and for a sum. -/
+theorem duration_corner_cases :
+    (["0", "+0", "-0", "1h", "-1h30m", "+1.5h", ".5s", "1.s", "1µs", "1μs", "1.5h30.25m",
+      "9223372036854775807ns", "-9223372036854775808ns", "2562047h47m16s854ms775us807ns",
+      "-2562047h47m16s854ms775us808ns"].all fun s => durAccepts s.toList == some true) = true ∧
+    (["", "-", "+", "00", "1", ".s", "-.s", "1x", "1hh", "1h1", "1h.", "1.0.5s", "1e3s", " 1s", "1s ", "1H", "1d",
+      "9223372036854775808ns", "-9223372036854775809ns", "92233720368547758080ns", "2562048h",
+      "2562047h47m16s854ms775us808ns", "2562047h2562047h"].all fun s => durAccepts s.toList == some false) = true := by
+  decide
+
+open D14b in
+/-- The RFC 3339 parser (`parseRFC3339` transliterated) only accepts timestamps whose every field is
+in its calendar range — month 1..12, day within the month (leap years by the Gregorian rule), hour ≤ 23,
+minute and second ≤ 59 (no leap second), zone offset strictly inside ±24 h — and reports the weekday of
+that date. -/
+theorem timestamp_fields_in_range (s : List Char) (t : Time) (h : goParseRFC3339 s = some t) :
+    t.year ≤ 9999 ∧ 1 ≤ t.month ∧ t.month ≤ 12 ∧ 1 ≤ t.day ∧ t.day ≤ daysIn t.month t.year ∧
+    t.hour ≤ 23 ∧ t.minute ≤ 59 ∧ t.second ≤ 59 ∧ t.weekday = weekdayOf t.year t.month t.day ∧
+    -86400 < t.offset ∧ t.offset < 86400 := goParseRFC3339_ranges h
+
+open D14b in
+/-- With the parser transliterated, `formatdate` depends on no recorded library answer except NFC:
+tokenizer, verbs, parser, calendar and weekday are all inside the model that is diffed against /repo. -/
+theorem formatdate_depends_only_on_nfc (L L' : Lib) (h : L.nfc = L'.nfc) (args : List Value) :
+    formatDateImpl (refLibTs L) args = formatDateImpl (refLibTs L') args := formatDateImpl_only_nfc L L' h args
+
+open D14b in
+/-- The strictness of the parser, evaluated: leap days by the Gregorian rule (2020 and 2000 yes, 2021 and
+1900 no), no hour 24, no second 60, upper-case `T` and `Z` only, a period must be followed by a digit,
+offsets up to ±23:59, nothing before or after. -/
+theorem timestamp_corner_cases :
+    (["2021-06-13T12:07:09Z", "2020-02-29T23:59:59.123+05:30", "2000-02-29T00:00:00Z", "0000-01-01T00:00:00-23:59",
+      "9999-12-31T23:59:59.999999999999Z"].all fun s => (goParseRFC3339 s.toList).isSome) = true ∧
+    (["2021-02-29T00:00:00Z", "1900-02-29T00:00:00Z", "2021-06-13T24:07:09Z", "2021-06-13T12:07:60Z", "2021-06-13t12:07:09Z",
+      "2021-06-13T12:07:09z", "2021-06-13T12:07:09.Z", "2021-06-13T12:07:09,5Z", "2021-06-13T12:07:09+24:00",
+      "2021-06-13T12:07:09+05:60", "2021-06-13T12:07:09", "2021-06-13T12:07:09ZZ", " 2021-06-13T12:07:09Z", "2021-13-01T00:00:00Z",
+      "2021-04-31T00:00:00Z", "2021-06-13T3:07:09Z", "21-06-13T12:07:09Z", "2021-06-13 12:07:09Z", "2021-06-13T12:07:09+0530"].all
+        fun s => (goParseRFC3339 s.toList).isNone) = true ∧
+    (goParseRFC3339 "2021-06-13T12:07:09-03:30".toList = some ⟨2021, 6, 13, 0, 12, 7, 9, -12600⟩) := by
+  decide
+
+open D14b in
+/-- **`regexall` never panics** under the same index-list law as `regex_never_panics`, asked of every
+match that `FindAllStringSubmatchIndex` reports: no slice or index expression is out of range, and the
+elements agree in type, so `cty.ListVal` does not panic either. -/
+theorem regexall_never_panics (L : Lib) (pat str : String)
+    (hk : ∀ names, L.regexCompile pat = some names → ∀ idxs ∈ L.regexFindAll pat str,
+      IdxOK str.utf8ByteSize names.length idxs) :
+    (regexAllImpl L [sv pat, sv str]).isPanic = false := regexAllImpl_no_panic L pat str hk
+
+-- d14b examples: the hypotheses are jointly satisfiable, and the functions compute
+open D14b in
+example : goSplit "a,b,,c".toList ",".toList = ["a".toList, "b".toList, [], "c".toList] := by decide
+open D14b in
+example : goSplit "aaa".toList "aa".toList = [[], "a".toList] ∧ goSplit "abc".toList [] = [['a'], ['b'], ['c']] := by decide
+open D14b in
+example : goIndex "aa".toList "baaa".toList = some 1 ∧ goIndex "x".toList "abc".toList = none := by decide
+open D14b in
+example : goTrimSpace " \t\u00a0x y\u3000\u2028\n".toList = "x y".toList ∧ goTrimSpace "\u200bx\u001f".toList = "\u200bx\u001f".toList := by decide
+open D14b in
+example : goTrim "xxhixyx".toList "xy".toList = "hi".toList ∧ goTrimPrefix "aab".toList "a".toList = "ab".toList := by decide
+open D14b in
+example : NaNLaw (domLib logNaN) logNaN ∧ NaNLaw (domLib powNaN) powNaN := ⟨domLib_law _, domLib_law _⟩
+example : fromCtyFloat (numVal (Num.ofInt (-8) 64)) = .ok (Num.ofInt (-8) 53) ∧
+    fromCtyFloat (numVal (.fin false 1 (-1) 64)) = .ok (.fin false 1 (-1) 53) := by decide
+open D14b in
+example : logNaN (Num.ofInt (-1) 53) (Num.ofInt 2 53) = true ∧ logNaN (Num.ofInt 1 53) (Num.ofInt 1 53) = true ∧
+    logNaN (Num.ofInt 0 53) (.inf false) = true ∧ logNaN (Num.ofInt 8 53) (Num.ofInt 2 53) = false ∧
+    powNaN (Num.ofInt (-8) 53) (.fin false 1 (-1) 53) = true ∧ powNaN (Num.ofInt (-8) 53) (Num.ofInt 3 53) = false ∧
+    powNaN (.inf true) (.fin false 1 (-1) 53) = false := by decide
 
 end C14
 end CtyModel
